@@ -1,5 +1,5 @@
 """Self-test variants for C17."""
-from sa.selftests import V
+from sa.selftests import V, Variant
 
 D = "moptipyapps/binpacking2d/instgen/inst_decoding.py"
 G = "moptipyapps/binpacking2d/instgen/"
@@ -45,9 +45,43 @@ VARIANTS = [
       "                        items.append(cur_item)\n",
       "                        items.append(cur_item)\n"
       "                        items.append(cur_item)\n", "fire", "D17.1"),
-    V("min-area-one-bin-less", D,
+    V("silent-min-area-margin-only", D,
       "min_area: Final[int] = current_area - bin_area + 1",
-      "min_area: Final[int] = current_area - bin_area", "fire", "D17.2"),
+      "min_area: Final[int] = current_area - bin_area", "silent",
+      note="alone harmless: the `- 1` of the cut limit keeps one unit"),
+    V("silent-limit-margin-only", D,
+      "                    item_size_in_dim) - 1\n                if "
+      "cut_modulus > 0:\n                    cut_position = (((int(\n"
+      "                        cut_modulus * cutter) % cut_modulus) + "
+      "cut_modulus)\n                        % cut_modulus) + 1\n\n"
+      "                    if 0 < cut_position < item_size_in_dim:\n"
+      "                        # We cut away",
+      "                    item_size_in_dim - 1)\n                if "
+      "cut_modulus > 0:\n                    cut_position = (((int(\n"
+      "                        cut_modulus * cutter) % cut_modulus) + "
+      "cut_modulus)\n                        % cut_modulus) + 1\n\n"
+      "                    if 0 < cut_position < item_size_in_dim:\n"
+      "                        # We cut away", "silent",
+      note="alone harmless: min_area's + 1 keeps one unit"),
+    Variant("both-margins-removed", D, [
+        ("min_area: Final[int] = current_area - bin_area + 1",
+         "min_area: Final[int] = current_area - bin_area"),
+        ("                    item_size_in_dim) - 1\n                if "
+         "cut_modulus > 0:\n                    cut_position = (((int(\n"
+         "                        cut_modulus * cutter) % cut_modulus) + "
+         "cut_modulus)\n                        % cut_modulus) + 1\n\n"
+         "                    if 0 < cut_position < item_size_in_dim:\n"
+         "                        # We cut away",
+         "                    item_size_in_dim - 1)\n                if "
+         "cut_modulus > 0:\n                    cut_position = (((int(\n"
+         "                        cut_modulus * cutter) % cut_modulus) + "
+         "cut_modulus)\n                        % cut_modulus) + 1\n\n"
+         "                    if 0 < cut_position < item_size_in_dim:\n"
+         "                        # We cut away")], "fire", "D17.1"),
+    V("min-area-too-low", D,
+      "min_area: Final[int] = current_area - bin_area + 1",
+      "min_area: Final[int] = current_area - bin_area - 1", "fire",
+      "D17"),
     V("instance-swapped-dims", D,
       "self.space.inst_name, bin_width, bin_height, items)",
       "self.space.inst_name, bin_height, bin_width, items)", "fire",
